@@ -272,6 +272,30 @@ def _phases():
         st.integers(-128, 128).map(lambda k: k / 64))
 
 
+def jitter(draw, layers):
+    """ Near-equal parameters: with probability 1/3 per later rotation, its
+    phase becomes an earlier rotation's phase plus a small offset (the shape
+    caches keyed on printed / rounded parameters get wrong). Returns the
+    number of phases changed. """
+    from hypothesis import strategies as st
+    seen, changed = [], 0
+    for b, _ in layers:
+        if b["k"] != "g" or b["g"] not in ROT1 + ROT2\
+                or isinstance(b["a"][0], str):
+            continue
+        same_arity = [x for x in seen if (x[0] in ROT1) == (b["g"] in ROT1)]
+        if same_arity and draw(st.integers(0, 2)) == 0:
+            name, base = draw(st.sampled_from(same_arity))
+            delta = draw(st.sampled_from(
+                [1e-3, 2e-4, -3e-4, 5e-5, -1e-5, 1e-6]))
+            if draw(st.integers(0, 3)):
+                b["g"] = name
+            b["a"] = [round(base + delta, 9)]
+            changed += 1
+        seen.append((b["g"], b["a"][0]))
+    return changed
+
+
 def circuit_layer(scan, max_width, gateset="all", symbolic=False):
     """ Strategy for one (boxspec, offset) legal on a bit/qubit scan. """
     from hypothesis import strategies as st
